@@ -91,6 +91,9 @@ func NewQuery(sql string) (*Command, error) {
 }
 
 func QuoteString(str string) string {
+	// the parser that consumes the output honours backslash escapes inside
+	// string literals, so a backslash has to be doubled as well as a quote
+	str = strings.ReplaceAll(str, `\`, `\\`)
 	return "'" + strings.ReplaceAll(str, "'", "''") + "'"
 }
 
